@@ -510,7 +510,7 @@ theorem writeFuncCode_sat {P : FS → Prop} (hW : World π s lvl me R) (hP : Goo
 /-! ### Programs that only observe; `reduce_size` and `clear` -/
 
 def IsObs (o : Op) : Prop :=
-  (∃ p, o = .stat p) ∨ (∃ p, o = .openr p) ∨ (∃ p i, o = .read p i) ∨ (∃ p, o = .opendir p) ∨ (∃ p i, o = .readdir p i)
+  (∃ p, o = .stat p) ∨ (∃ p, o = .openr p) ∨ (∃ p i, o = .read p i) ∨ (∃ p g, o = .opendir p g) ∨ (∃ p i, o = .readdir p i)
 
 inductive ObsOnly {α : Type} : Prog α → Prop
   | ret (a : α) : ObsOnly (.ret a)
@@ -526,7 +526,7 @@ theorem ObsOnly.bind {α β : Type} {p : Prog α} {f : α → Prog β} (hp : Obs
 
 theorem isObs_not_write {o : Op} (h : IsObs o) : ∀ p i d, o ≠ .write p i d := by
   intro p i d e
-  rcases h with ⟨_, rfl⟩ | ⟨_, rfl⟩ | ⟨_, _, rfl⟩ | ⟨_, rfl⟩ | ⟨_, _, rfl⟩ <;> cases e
+  rcases h with ⟨_, rfl⟩ | ⟨_, rfl⟩ | ⟨_, _, rfl⟩ | ⟨_, _, rfl⟩ | ⟨_, _, rfl⟩ <;> cases e
 
 theorem obsOnly_sat {α : Type} {G : FS → Op → Prop} {P : FS → Prop} {p : Prog α}
     (hG : ∀ fs o, (∀ p i d, o ≠ .write p i d) → (apply o fs).2 = fs → G fs o) (hP : Stable R P) (h : ObsOnly p) :
@@ -573,7 +573,7 @@ theorem obsOnly_walk (rank : Name → Nat) : ∀ (fuel : Nat) (p : Path), ObsOnl
   | succ fuel ih =>
     intro p
     unfold walk
-    refine .op _ _ (Or.inr (Or.inr (Or.inr (Or.inl ⟨_, rfl⟩)))) fun r => ?_
+    refine .op _ _ (Or.inr (Or.inr (Or.inr (Or.inl ⟨_, _, rfl⟩)))) fun r => ?_
     cases r with
     | fd i =>
       unfold scandir
@@ -622,10 +622,10 @@ theorem Sat.ownop {α : Type} {R : FS → FS → Prop} {G : FS → Op → Prop} 
 /-- an assertion that survives the participant's own removals at and below `p0` -/
 structure RmGood (G : FS → Op → Prop) (P : FS → Prop) (p0 : Path) : Prop where
   stable : Stable R P
-  rm : ∀ fs t, P fs → p0 <+: t → P (apply (.unlink t) fs).2 ∧ P (apply (.rmdir t) fs).2
+  rm : ∀ fs t g, P fs → p0 <+: t → P (apply (.unlink t g) fs).2 ∧ P (apply (.rmdir t g) fs).2
   obs : ∀ fs o, (∀ p i d, o ≠ .write p i d) → (apply o fs).2 = fs → G fs o
-  allowU : ∀ fs t, P fs → p0 <+: t → G fs (.unlink t)
-  allowR : ∀ fs t, P fs → p0 <+: t → G fs (.rmdir t)
+  allowU : ∀ fs t g, P fs → p0 <+: t → G fs (.unlink t g)
+  allowR : ∀ fs t g, P fs → p0 <+: t → G fs (.rmdir t g)
 
 theorem below_trans {p0 t : Path} (h : Below pLoc p0) (ht : p0 <+: t) : Below pLoc t := by
   refine ⟨h.1.trans ht, ?_⟩
@@ -634,14 +634,18 @@ theorem below_trans {p0 t : Path} (h : Below pLoc p0) (ht : p0 <+: t) : Below pL
   have l2 := ht.length_le
   exact h.2 (ht.eq_of_length (by omega))
 
-theorem own_unlink {p0 t : Path} {fs : FS} (h : Below pLoc p0) (ht : p0 <+: t) : OwnG π me strong fs (.unlink t) :=
-  ⟨.unlinkC t rfl (below_trans h ht), fun _ p i d _ e => by cases e⟩
+theorem own_unlink {p0 t : Path} {g : Option Nat} {fs : FS} (h : Below pLoc p0) (ht : p0 <+: t) :
+    OwnG π me strong fs (.unlink t g) :=
+  ⟨.unlinkC t g rfl (below_trans h ht), fun _ p i d _ e => by cases e⟩
 
-theorem own_rmdir {p0 t : Path} {fs : FS} (h : Below pLoc p0) (ht : p0 <+: t) : OwnG π me strong fs (.rmdir t) :=
-  ⟨.rmdirC t rfl (below_trans h ht), fun _ p i d _ e => by cases e⟩
+theorem own_rmdir {p0 t : Path} {g : Option Nat} {fs : FS} (h : Below pLoc p0) (ht : p0 <+: t) :
+    OwnG π me strong fs (.rmdir t g) :=
+  ⟨.rmdirC t g rfl (below_trans h ht), fun _ p i d _ e => by cases e⟩
 
-theorem opendir_noop (p : Path) (fs : FS) : (apply (.opendir p) fs).2 = fs := by
-  simp only [apply]; split <;> rfl
+theorem opendir_noop (p : Path) (g : Option Nat) (fs : FS) : (apply (.opendir p g) fs).2 = fs := by
+  simp only [apply]; split
+  · rfl
+  · split <;> rfl
 
 theorem prefix_snoc {p0 p : Path} (n : Name) (h : p0 <+: p) : p0 <+: p ++ [n] :=
   h.trans (List.prefix_append p [n])
@@ -650,8 +654,8 @@ theorem rmLoop_sat {G : FS → Op → Prop} {P : FS → Prop} {p0 : Path} (hP : 
     (recur : Path → Nat → Prog Unit)
     (hrec : ∀ q j, p0 <+: q → Sat R G P (recur q j) (fun _ fs => P fs)
       (fun _ fs => strict = true ∧ P fs))
-    (p : Path) (hp : p0 <+: p) :
-    ∀ l, Sat R G P (rmLoop strict recur p l) (fun _ fs => P fs)
+    (p : Path) (hp : p0 <+: p) (di : Nat) :
+    ∀ l, Sat R G P (rmLoop strict recur p di l) (fun _ fs => P fs)
       (fun _ fs => strict = true ∧ P fs) := by
   intro l
   induction l with
@@ -659,7 +663,7 @@ theorem rmLoop_sat {G : FS → Op → Prop} {P : FS → Prop} {p0 : Path} (hP : 
   | cons x rest ih =>
     obtain ⟨n, isDir⟩ := x
     have skip : ∀ (e : Err), Sat R G P
-        (if strict then (Prog.raise e : Prog Unit) else rmLoop strict recur p rest) (fun _ fs => P fs)
+        (if strict then (Prog.raise e : Prog Unit) else rmLoop strict recur p di rest) (fun _ fs => P fs)
         (fun _ fs => strict = true ∧ P fs) := by
       intro e
       cases strict with
@@ -668,22 +672,23 @@ theorem rmLoop_sat {G : FS → Op → Prop} {P : FS → Prop} {p0 : Path} (hP : 
     cases isDir with
     | true =>
       unfold rmLoop
-      refine Sat.obs (fun _ _ => True) (fun fs _ => hP.obs fs _ (by intro _ _ _ e; cases e) rfl) (stat_noop _)
-        (fun _ _ => trivial) hP.stable (fun _ _ _ _ _ => trivial) fun r => ?_
-      by_cases hr : r = .yes
-      · subst hr
-        simp only [bne_self_eq_false, Bool.false_eq_true, if_false]
-        refine Sat.obs (fun _ _ => True) (fun fs _ => hP.obs fs _ (by intro _ _ _ e; cases e) (opendir_noop _ fs))
-          (opendir_noop _) (fun _ _ => trivial) (hP.stable.and (fun _ _ _ _ => trivial))
+      refine Sat.obs (fun _ _ => True) (fun fs _ => hP.obs fs _ (by intro _ _ _ e; cases e) (lstat_noop _ _ fs)) (lstat_noop _ _)
+        (fun _ _ => trivial) hP.stable (fun _ _ _ _ _ => trivial) fun r0 => ?_
+      by_cases hr : (r0 == Res.no) = true
+      · rw [if_pos hr]
+        exact (skip _).pre fun fs h => h.1
+      · rw [if_neg hr]
+        refine Sat.obs (fun _ _ => True) (fun fs _ => hP.obs fs _ (by intro _ _ _ e; cases e) (opendir_noop _ _ fs))
+          (opendir_noop _ _) (fun _ _ => trivial) (hP.stable.and (fun _ _ _ _ => trivial))
           (fun _ _ _ _ _ => trivial) fun r => ?_
         have cont : ∀ j, Sat R G (fun fs => (P fs ∧ True) ∧ True)
             ((recur (p ++ [n]) j).bind fun _ =>
-              Prog.op (.rmdir (p ++ [n])) fun r => if (strict && r != .ok) = true then Prog.raise .osError
-                else rmLoop strict recur p rest) (fun _ fs => P fs) (fun _ fs => strict = true ∧ P fs) := by
+              Prog.op (.rmdir (p ++ [n]) (some di)) fun r => if (strict && r != .ok) = true then Prog.raise .osError
+                else rmLoop strict recur p di rest) (fun _ fs => P fs) (fun _ fs => strict = true ∧ P fs) := by
           intro j
           refine Sat.bind ((hrec _ j (prefix_snoc n hp)).pre fun fs h => h.1.1) fun _ => ?_
-          refine Sat.ownop (fun fs h => hP.allowR fs _ h (prefix_snoc n hp))
-            (fun fs h => (hP.rm fs _ h (prefix_snoc n hp)).2) hP.stable fun r => ?_
+          refine Sat.ownop (fun fs h => hP.allowR fs _ _ h (prefix_snoc n hp))
+            (fun fs h => (hP.rm fs _ _ h (prefix_snoc n hp)).2) hP.stable fun r => ?_
           cases strict with
           | true =>
             by_cases hr : r = .ok
@@ -693,7 +698,11 @@ theorem rmLoop_sat {G : FS → Op → Prop} {P : FS → Prop} {p0 : Path} (hP : 
               exact .raise fun fs h => ⟨by simp, h⟩
           | false => simpa using ih
         cases r with
-        | fd j => exact cont j
+        | fd j =>
+          simp only
+          by_cases hs : (r0 == Res.fd j) = true
+          · rw [if_pos hs]; exact cont j
+          · rw [if_neg hs]; exact (skip _).pre fun fs h => h.1.1
         | ok => exact (skip _).pre fun fs h => h.1.1
         | yes => exact (skip _).pre fun fs h => h.1.1
         | no => exact (skip _).pre fun fs h => h.1.1
@@ -704,13 +713,10 @@ theorem rmLoop_sat {G : FS → Op → Prop} {P : FS → Prop} {p0 : Path} (hP : 
         | enotdir => exact (skip _).pre fun fs h => h.1.1
         | data _ => exact (skip _).pre fun fs h => h.1.1
         | names _ => exact (skip _).pre fun fs h => h.1.1
-      · have : (r != Res.yes) = true := by simpa using hr
-        simp only [this, if_true]
-        exact (skip _).pre fun fs h => h.1
     | false =>
       unfold rmLoop
-      refine Sat.ownop (fun fs h => hP.allowU fs _ h (prefix_snoc n hp))
-        (fun fs h => (hP.rm fs _ h (prefix_snoc n hp)).1) hP.stable fun r => ?_
+      refine Sat.ownop (fun fs h => hP.allowU fs _ _ h (prefix_snoc n hp))
+        (fun fs h => (hP.rm fs _ _ h (prefix_snoc n hp)).1) hP.stable fun r => ?_
       cases strict with
       | true =>
         by_cases hr : r = .ok
@@ -736,7 +742,7 @@ theorem rmSafeFd_sat {G : FS → Op → Prop} {P : FS → Prop} {p0 : Path} (hP 
     unfold rmSafeFd scandir
     refine Sat.obs (fun _ _ => True) (fun fs _ => hP.obs fs _ (by intro _ _ _ e; cases e) rfl) (readdir_noop p i)
       (fun _ _ => trivial) hP.stable (fun _ _ _ _ _ => trivial) fun r => ?_
-    have := fun l => (rmLoop_sat hP strict (rmSafeFd rank strict fuel) (fun q j hq => ih q j hq) p hp l).pre
+    have := fun l => (rmLoop_sat hP strict (rmSafeFd rank strict fuel) (fun q j hq => ih q j hq) p hp i l).pre
       (P' := fun fs => P fs ∧ True) fun fs h => h.1
     cases r <;> exact this _
 
@@ -752,27 +758,32 @@ theorem rmtree_sat {G : FS → Op → Prop} {P : FS → Prop} {p0 : Path} (hP : 
     cases strict with
     | true => exact .raise fun fs h => ⟨by simp, h⟩
     | false => exact .ret fun fs h => h
-  refine Sat.obs (fun _ _ => True) (fun fs _ => hP.obs fs _ (by intro _ _ _ e; cases e) rfl) (stat_noop _)
-    (fun _ _ => trivial) hP.stable (fun _ _ _ _ _ => trivial) fun r => ?_
-  by_cases hr : r = .yes
-  · subst hr
-    simp only [bne_self_eq_false, Bool.false_eq_true, if_false]
-    refine Sat.obs (fun _ _ => True) (fun fs _ => hP.obs fs _ (by intro _ _ _ e; cases e) (opendir_noop _ fs))
-      (opendir_noop _) (fun _ _ => trivial) (hP.stable.and (fun _ _ _ _ => trivial))
+  refine Sat.obs (fun _ _ => True) (fun fs _ => hP.obs fs _ (by intro _ _ _ e; cases e) (lstat_noop _ _ fs)) (lstat_noop _ _)
+    (fun _ _ => trivial) hP.stable (fun _ _ _ _ _ => trivial) fun r0 => ?_
+  by_cases hr : (r0 == Res.no) = true
+  · rw [if_pos hr]
+    exact (skip _).pre fun fs h => h.1
+  · rw [if_neg hr]
+    refine Sat.obs (fun _ _ => True) (fun fs _ => hP.obs fs _ (by intro _ _ _ e; cases e) (opendir_noop _ _ fs))
+      (opendir_noop _ _) (fun _ _ => trivial) (hP.stable.and (fun _ _ _ _ => trivial))
       (fun _ _ _ _ _ => trivial) fun r => ?_
     cases r with
     | fd i =>
-      refine Sat.bind ((rmSafeFd_sat hP rank strict 5 p0 i (List.prefix_refl _)).pre fun fs h => h.1.1) fun _ => ?_
-      refine Sat.ownop (fun fs h => hP.allowR fs _ h (List.prefix_refl _))
-        (fun fs h => (hP.rm fs _ h (List.prefix_refl _)).2) hP.stable fun r => ?_
-      cases strict with
-      | true =>
-        by_cases hr : r = .ok
-        · subst hr; exact .ret fun fs h => h
-        · have : (r != Res.ok) = true := by simpa using hr
-          simp only [Bool.true_and, this, if_true]
-          exact .raise fun fs h => ⟨by simp, h⟩
-      | false => exact .ret fun fs h => h
+      simp only
+      by_cases hs : (r0 == Res.fd i) = true
+      · rw [if_pos hs]
+        refine Sat.bind ((rmSafeFd_sat hP rank strict 5 p0 i (List.prefix_refl _)).pre fun fs h => h.1.1) fun _ => ?_
+        refine Sat.ownop (fun fs h => hP.allowR fs _ _ h (List.prefix_refl _))
+          (fun fs h => (hP.rm fs _ _ h (List.prefix_refl _)).2) hP.stable fun r => ?_
+        cases strict with
+        | true =>
+          by_cases hr : r = .ok
+          · subst hr; exact .ret fun fs h => h
+          · have : (r != Res.ok) = true := by simpa using hr
+            simp only [Bool.true_and, this, if_true]
+            exact .raise fun fs h => ⟨by simp, h⟩
+        | false => exact .ret fun fs h => h
+      · rw [if_neg hs]; exact (skip _).pre fun fs h => h.1.1
     | ok => exact (skip _).pre fun fs h => h.1.1
     | yes => exact (skip _).pre fun fs h => h.1.1
     | no => exact (skip _).pre fun fs h => h.1.1
@@ -783,9 +794,6 @@ theorem rmtree_sat {G : FS → Op → Prop} {P : FS → Prop} {p0 : Path} (hP : 
     | enotdir => exact (skip _).pre fun fs h => h.1.1
     | data _ => exact (skip _).pre fun fs h => h.1.1
     | names _ => exact (skip _).pre fun fs h => h.1.1
-  · have : (r != Res.yes) = true := by simpa using hr
-    simp only [this, if_true]
-    exact (skip _).pre fun fs h => h.1
 
 end
 end JoblibModel.Store
